@@ -234,20 +234,28 @@ structure L1Cert where
   tauErr : Rat       -- `max |trend - (y - D' clip nu)|`
   deriving Repr, Inhabited
 
-/-- Evaluate the optimality conditions of `min ½‖y-τ‖² + λ‖Dτ‖₁` on a returned `(trend, gap)`. -/
-def l1Certificate (order : Nat) (lam : Rat) (y trend gap : QVec) : Option L1Cert :=
+/-- Evaluate the optimality conditions of `min ½ Σ_obs (y-τ)² + λ‖Dτ‖₁` on a returned `(trend, gap)`; a missing
+observation is `none` in `y` and in `gap` (no fidelity term there: `D'ν` must vanish at that period, which `rangeErr`
+measures on the zero-filled gap, and the trend at that period is taken as returned). -/
+def l1Certificate (order : Nat) (lam : Rat) (y : Array (Option Rat)) (trend : QVec) (gap : Array (Option Rat)) :
+    Option L1Cert :=
   let n := y.size
   let D := lonfD order n
-  match QMat.solveChecked (D * D.transpose) (D * QMat.col gap) with
+  let g0 : QVec := gap.map (fun o => o.getD 0)
+  match QMat.solveChecked (D * D.transpose) (D * QMat.col g0) with
   | none => none
   | some nuM =>
     let nu := nuM.toVec
-    let rangeErr := (QMat.col gap - D.transpose * nuM).maxAbs
+    let rangeErr := (QMat.col g0 - D.transpose * nuM).maxAbs
     let boxExcess := nu.foldl (fun m x => if m < absQ x - lam then absQ x - lam else m) 0
     let nuC := nu.map (fun x => if x > lam then lam else if x < -lam then -lam else x)
-    let tauC := QMat.col y - D.transpose * QMat.col nuC
-    let z := (D * tauC).toVec
+    let dtn := (D.transpose * QMat.col nuC).toVec
+    let tauC : QVec := (Array.range n).map (fun t =>
+      match y.getD t none with
+      | some v => v - dtn.getD t 0
+      | none => trend.getD t 0)
+    let z := (D * QMat.col tauC).toVec
     let dualGap := (List.range z.size).foldl (fun acc i => acc + (lam * absQ (z.getD i 0) - nuC.getD i 0 * z.getD i 0)) 0
-    some ⟨nu, rangeErr, boxExcess, dualGap, (QMat.col trend - tauC).maxAbs⟩
+    some ⟨nu, rangeErr, boxExcess, dualGap, (QMat.col trend - QMat.col tauC).maxAbs⟩
 
 end IrisVerif.HP
